@@ -43,10 +43,9 @@ def pinch_analysis_service(data: Any, project_name: str = "Project", is_return_f
         tables ready for serialisation.
     """
     # Validate request data using Pydantic model
-    request_data = TargetInput.model_validate(data)
-    if request_data is data:
-        # Never let preparation write into the caller's own model instance.
-        request_data = data.model_copy(deep=True)
+    # Never let preparation write into the caller's own model instances: validation keeps
+    # a TargetInput, and any schema rows nested in a plain dict, by reference.
+    request_data = TargetInput.model_validate(data).model_copy(deep=True)
 
     # Formulate the top level zone with all subzones and approperiate input data
     master_zone = prepare_problem(
